@@ -10,7 +10,9 @@ files, with a kernel-evaluated certificate `<name>_dim : Expr.dim Γ <name> = .i
 the length unit) of the hook / junction / residual / argument it stands for, relative to the declared variable typing `Γ`
 (`gammaTable`).  A table row (`Dims.Entry Γ`) carries its certificate, so a changed formula whose dimension no longer comes
 out as declared cannot stay in its table: it moves to `inhomogeneous`, every row of which must be one of the `accepted`
-exceptions (`inhomogeneous_accepted`).
+exceptions (`inhomogeneous_accepted`).  The tables are written for the source AS REPAIRED; the one repair of a listed
+finding that is not in /repo yet (face test of `SplineGroove`) is covered by `acceptedPendingRepair` /
+`spline_face_test_form`, so that the file builds against both source forms.
 
 `scaleEnv Γ k ρ` is the environment `ρ` with every variable `v` multiplied by `k ^ Γ(v)`: all length inputs scaled by `k`,
 areas by `k²`, …, angles / stresses / times / frequencies / material data untouched.  The metatheorem
@@ -206,47 +208,19 @@ theorem convergence_test_scale_free (c o p k : ℝ) (d : ℤ) (hk : 0 < k) :
 
 /-! ### what is NOT homogeneous -/
 
-/-- The ACCEPTED exceptions (stable keys `file:function:kind#ordinal`): the unit-bound ASTM grain-size number, the absolute
-    buffers `1e-9` / `1e-12`, `np.isclose` on the depth, on the junction coordinates and on the ordinates of a spline
-    contour (face test of `SplineGroove`), the absolute stop test `0.01` of the velocity loops. -/
-def accepted : List String :=
-  ["profile/hookimpls.py:astm_grain_size_number#alt0",
-   "roll_pass/hookimpls/base_roll_pass.py:contact_contour_lines:arg:buffer#1",
-   "grooves/generic_elongation.py:GenericElongationGroove.__init__:isclose#1",
-   "grooves/generic_elongation.py:GenericElongationGroove.__init__:isclose#2",
-   "grooves/generic_elongation.py:GenericElongationGroove._enumerate_contour_points:isclose#1",
-   "grooves/generic_elongation.py:GenericElongationGroove._enumerate_contour_points:isclose#2",
-   "grooves/generic_elongation.py:GenericElongationGroove._enumerate_contour_points:isclose#3",
-   "grooves/generic_elongation.py:GenericElongationGroove._enumerate_contour_points:isclose#4",
-   "grooves/generic_elongation.py:GenericElongationGroove._enumerate_contour_points:isclose#5",
-   "profile/profile.py:Profile.local_height:arg:buffer#1",
-   "profile/profile.py:Profile.local_width:arg:buffer#1",
-   "sequence/sequence.py:PassSequence.solve_velocities_backward:cmp#1",
-   "sequence/sequence.py:PassSequence.solve_velocities_forward:cmp#1",
-   "grooves/spline.py:SplineGroove.__init__:isclose#1",
-   "grooves/spline.py:SplineGroove.__init__:isclose#2",
-   "grooves/spline.py:SplineGroove.__init__:isclose#3"]
-
-/-- **Every translated item whose certificate is not the declared one is an accepted exception** (each row of `inhomogeneous`
-    carries the kernel-checked refutation of its certificate).  An edit of the source that adds an absolute tolerance, a
-    `+ constant` or a dimensionally wrong term to any translated formula, decision or geometry argument puts a new row into
-    `inhomogeneous` and this theorem fails; a repair that removes a row leaves it true. -/
-theorem inhomogeneous_accepted : ∀ en ∈ inhomogeneous, en.key ∈ accepted := by
-  simp only [inhomogeneous, badHooks, badGeom, badClosed, badSites, List.append_nil, List.nil_append,
-    List.cons_append, List.forall_mem_cons, List.not_mem_nil, false_imp_iff, implies_true, and_true]
-  simp only [accepted, List.mem_cons, true_or, or_true, and_self]
-
-theorem inhomogeneous_refuted : ∀ en ∈ inhomogeneous, ¬ Cert Γ en.e en.d := fun en _ => en.bad
-
 /-- `np.isclose(a, b)` with numpy's default tolerances, as the translator writes it: `|a - b| - (1e-8 + 1e-5 |b|)` -/
 def iscloseTerm (a b : Expr) : Expr := .sub (.abs (.sub a b)) (.add (.dec 1 8) (.mul (.dec 1 5) (.abs b)))
 
 /-- the velocity stop test `|prior - current| < 0.01` -/
 def stopTerm : Expr := .sub (.abs (.sub (.var "prior_velocities") (.var "current_velocities"))) (.dec 1 2)
 
-/-- The accepted exceptions WITH THEIR VALUE: the translated term of each.  An exception is accepted as the tolerance it
-    is now (`1e-8`, `1e-9`, `1e-12`, `0.01`, numpy's defaults), not as a place where any tolerance may stand. -/
-def acceptedTerms : List (String × Expr) :=
+/-- The ACCEPTED exceptions of the source AS REPAIRED (stable keys `file:function:kind#ordinal`), each WITH ITS VALUE (the
+    translated term): the unit-bound ASTM grain-size number, the absolute contact buffer `1e-9`, `np.isclose` on the depth
+    and on the junction coordinates of the generic groove, the absolute stop test `0.01` of the velocity loops.  An
+    exception is accepted as the tolerance it is now, not as a place where any tolerance may stand.
+    (No longer exceptions: the chord buffers of `Profile.local_width/local_height` - relative since /repo 9e95dfa - and the
+    face tests of `SplineGroove`, see `acceptedPendingRepair`.) -/
+def acceptedRepaired : List (String × Expr) :=
   [("profile/hookimpls.py:astm_grain_size_number#alt0",
      .add (.nat 1) (.div (.log (.div (.div (.nat 1) (.mul .pi (.pow (.div (.div (.var "grain_size") (.dec 254 4))
        (.nat 2)) 2))) (.pow (.nat 100) 2))) (.log (.nat 2)))),
@@ -263,13 +237,35 @@ def acceptedTerms : List (String × Expr) :=
      iscloseTerm (.var "z5") (.var "z6")),
    ("grooves/generic_elongation.py:GenericElongationGroove._enumerate_contour_points:isclose#5",
      iscloseTerm (.var "z6") (.var "z7")),
-   ("profile/profile.py:Profile.local_height:arg:buffer#1", .dec 1 12),
-   ("profile/profile.py:Profile.local_width:arg:buffer#1", .dec 1 12),
    ("sequence/sequence.py:PassSequence.solve_velocities_backward:cmp#1", stopTerm),
-   ("sequence/sequence.py:PassSequence.solve_velocities_forward:cmp#1", stopTerm),
-   ("grooves/spline.py:SplineGroove.__init__:isclose#1", iscloseTerm (.var "contour_points") (.nat 0)),
+   ("sequence/sequence.py:PassSequence.solve_velocities_forward:cmp#1", stopTerm)]
+
+/-- Exceptions that exist ONLY in the source form before the repair of a listed finding has landed in /repo
+    (`KNOWN_FINDINGS.txt`, key `tworun-spline-face-thin-fillet`): the three face tests `np.isclose(y, 0)` of
+    `SplineGroove.__init__`.  The repaired source tests `|y| ≤ 1e-9 · extent` instead (`SplineFaceRepaired` below) and these
+    rows vanish.  `spline_face_test_form` says that the generated tables are in exactly one of the two forms; once the
+    repair is in /repo this list is to be emptied (then a return of the absolute test breaks `inhomogeneous_accepted`). -/
+def acceptedPendingRepair : List (String × Expr) :=
+  [("grooves/spline.py:SplineGroove.__init__:isclose#1", iscloseTerm (.var "contour_points") (.nat 0)),
    ("grooves/spline.py:SplineGroove.__init__:isclose#2", iscloseTerm (.var "contour_points") (.nat 0)),
    ("grooves/spline.py:SplineGroove.__init__:isclose#3", iscloseTerm (.var "contour_points") (.nat 0))]
+
+def acceptedTerms : List (String × Expr) := acceptedRepaired ++ acceptedPendingRepair
+
+/-- the keys of the accepted exceptions -/
+def accepted : List String := acceptedTerms.map (·.1)
+
+/-- **Every translated item whose certificate is not the declared one is an accepted exception** (each row of `inhomogeneous`
+    carries the kernel-checked refutation of its certificate).  An edit of the source that adds an absolute tolerance, a
+    `+ constant` or a dimensionally wrong term to any translated formula, decision or geometry argument puts a new row into
+    `inhomogeneous` and this theorem fails; a repair that removes a row leaves it true. -/
+theorem inhomogeneous_accepted : ∀ en ∈ inhomogeneous, en.key ∈ accepted := by
+  simp only [inhomogeneous, badHooks, badGeom, badClosed, badSites, List.append_nil, List.nil_append,
+    List.cons_append, List.forall_mem_cons, List.not_mem_nil, false_imp_iff, implies_true, and_true]
+  simp only [accepted, acceptedTerms, acceptedRepaired, acceptedPendingRepair, List.map_cons, List.map_nil,
+    List.cons_append, List.nil_append, List.mem_cons, true_or, or_true, and_self]
+
+theorem inhomogeneous_refuted : ∀ en ∈ inhomogeneous, ¬ Cert Γ en.e en.d := fun en _ => en.bad
 
 /-- **Every inhomogeneous item is an accepted exception with the accepted value**: key AND translated term are in
     `acceptedTerms` (keys compared by their injective `strCode`).  Changing the literal of an accepted tolerance
@@ -279,6 +275,43 @@ theorem inhomogeneous_terms_pinned :
   decide +kernel
 
 theorem acceptedTerms_keys : acceptedTerms.map (·.1) = accepted := rfl
+
+/-! #### the face test of `SplineGroove` -/
+
+/-- the repaired face test `np.abs(contour_points[:, 1]) <= 1e-9 * np.max(np.ptp(contour_points, axis=0))` as the translator
+    writes it (`a ≤ b` as the term `a − b`; ordinates, abscissae and extents of one coordinate array share the one variable
+    `contour_points`) -/
+def splineFaceTerm : Expr := .sub (.abs (.var "contour_points")) (.mul (.dec 1 9) (.var "contour_points"))
+
+/-- the generated table `decisions` holds the repaired face test, key and value, WITH its certificate -/
+def SplineFaceRepaired : Prop :=
+  (strCode "grooves/spline.py:SplineGroove.__init__:cmp#3", splineFaceTerm) ∈ decisions.map (fun en => (strCode en.key, en.e))
+
+/-- the generated table `inhomogeneous` holds the three absolute face tests of the unrepaired source -/
+def SplineFacePending : Prop :=
+  ∀ p ∈ acceptedPendingRepair, (strCode p.1, p.2) ∈ inhomogeneous.map (fun en => (strCode en.key, en.e))
+
+instance : Decidable SplineFaceRepaired := by unfold SplineFaceRepaired; infer_instance
+instance : Decidable SplineFacePending := by unfold SplineFacePending; infer_instance
+
+/-- **The source read on this run is in exactly one of the two forms**: either the face test of `SplineGroove` is the
+    relative one - a certified row of `decisions`, and then NO pending exception is used (no row of `inhomogeneous` has one
+    of their keys) - or all three absolute tests are there with the accepted value.  A third form (other tolerance, one test
+    repaired and another not, the test moved out of the translatable subset) fails this theorem. -/
+theorem spline_face_test_form :
+    (SplineFaceRepaired ∧ ∀ p ∈ acceptedPendingRepair, strCode p.1 ∉ inhomogeneous.map (fun en => strCode en.key))
+      ∨ (SplineFacePending ∧ ¬ SplineFaceRepaired) := by
+  decide +kernel
+
+/-- **the repaired face test is scale invariant**: where the translator found it, a vertex is on the face in one unit of
+    length iff it is in every other (`|y| ≤ 1e-9·extent` ⇔ `|k y| ≤ 1e-9·k·extent`), for all `k > 0` and all contours -/
+theorem spline_face_test_scale_invariant (h : SplineFaceRepaired) (k : ℝ) (hk : 0 < k) (ρ : String → ℝ) :
+    (eval (scaleEnv Γ k ρ) splineFaceTerm ≤ 0 ↔ eval ρ splineFaceTerm ≤ 0) := by
+  obtain ⟨en, hen, heq⟩ := List.mem_map.1 h
+  have he : en.e = splineFaceTerm := (Prod.mk.inj heq).2
+  have hs := sign_invariant en.e en.d en.cert k hk ρ
+  rw [he] at hs
+  rw [← not_lt, ← not_lt, hs.1]
 
 /-! #### conditional lemmas: when does an absolute tolerance leave a decision unchanged? -/
 
@@ -397,6 +430,17 @@ example : ∀ k k' : ℝ, 1 ≤ k → 1 ≤ k' →
     (finding 2 of notes/C11.md; the generators of the two-run oracle stay on the side of the example above) -/
 example : isClose 1e-8 1e-5 3.8e-9 0 ∧ ¬ isClose 1e-8 1e-5 (1000 * 3.8e-9) (1000 * 0) := by
   constructor <;> unfold isClose <;> norm_num [abs_of_pos]
+
+/-- the generated tables are in one of the two forms (which one depends on the tree the translator read) -/
+example : SplineFaceRepaired ∨ SplineFacePending := spline_face_test_form.elim (fun h => Or.inl h.1) (fun h => Or.inr h.1)
+
+/-- the REPAIRED face test on that thin-wire fillet: 3.8·10⁻⁹ m above the face of a contour 1.13 mm wide is off the face
+    (tolerance 1.13·10⁻¹² m) in metres and, the test being homogeneous, in every other unit -/
+example : ∀ k : ℝ, 0 < k → ¬ (|k * 3.8e-9| ≤ 1e-9 * (k * 1.13e-3)) := by
+  intro k hk
+  rw [abs_of_pos (by positivity)]
+  intro h
+  nlinarith
 
 /-- the three variables of the entry-point formula are declared lengths, so the metres → millimetres change of unit
     multiplies each of them by 1000 … -/
